@@ -2,6 +2,9 @@ use chrono::{DateTime, TimeDelta, Utc};
 use serde::{Deserialize, Serialize};
 use thiserror::Error;
 
+/// The number of nanoseconds in seconds.
+const NANOS_PER_SEC: u64 = 1_000_000_000;
+
 /// Error type for time operations
 #[derive(Debug, PartialEq, Eq, Serialize, Deserialize, Error)]
 #[serde(rename_all = "camelCase")]
@@ -18,7 +21,16 @@ impl TryFrom<TimeDelta> for crate::Duration {
     type Error = TimeError;
 
     fn try_from(value: TimeDelta) -> Result<Self, Self::Error> {
-        let nanos = value.num_nanoseconds().ok_or(TimeError::InvalidDuration)? as u64;
+        // negative deltas have no `Duration`; going through `num_nanoseconds` (an `i64`)
+        // would also lose the upper half of the `u64` range
+        let seconds =
+            u64::try_from(value.num_seconds()).map_err(|_| TimeError::InvalidDuration)?;
+        let subsec =
+            u64::try_from(value.subsec_nanos()).map_err(|_| TimeError::InvalidDuration)?;
+        let nanos = seconds
+            .checked_mul(NANOS_PER_SEC)
+            .and_then(|nanos| nanos.checked_add(subsec))
+            .ok_or(TimeError::InvalidDuration)?;
         Ok(Self { nanos })
     }
 }
